@@ -36,6 +36,11 @@ Proof.
   apply IH; lia.
 Qed.
 
+Lemma In_firstn_in {X} n (x : X) l : In x (firstn n l) -> In x l.
+Proof. revert l; induction n as [|n IH]; intros [|y l] H; simpl in *; try contradiction. destruct H; [now left | right; now apply IH]. Qed.
+Lemma In_skipn_in {X} n (x : X) l : In x (skipn n l) -> In x l.
+Proof. revert l; induction n as [|n IH]; intros [|y l] H; simpl in *; try contradiction; try exact H. right; now apply IH. Qed.
+
 Lemma div_mul_le a b : a / b * b <= a.
 Proof. destruct b; [lia|]. pose proof (Nat.mul_div_le a (S b)). lia. Qed.
 Lemma lt_div_mul_add a b : 0 < b -> a < a / b * b + b.
@@ -131,6 +136,24 @@ Proof.
   { simpl in Hq. subst j. f_equal. apply Nat.div_unique with (r := length inp - q * N); nia. }
   rewrite <- Hj. apply (tail1_spec d); [exact Hl | lia].
 Qed.
+
+(* the lane function only matters where it differs from f on an element that is actually loaded *)
+Lemma packed1_ext (g : A -> A) fuel : forall i size inp out,
+  (forall x, In x inp -> g x = f x) ->
+  packed1 N g fuel i size inp out = packed1 N f fuel i size inp out.
+Proof.
+  induction fuel as [|fu IH]; intros i size inp out Hg; simpl; [reflexivity|].
+  destruct (i + N <=? size); [|reflexivity].
+  unfold loadu. destruct (i + N <=? length inp); simpl; [|reflexivity].
+  assert (Hm : map g (firstn N (skipn i inp)) = map f (firstn N (skipn i inp))).
+  { apply map_ext_in. intros x Hx. apply Hg.
+    apply (In_skipn_in i). apply (In_firstn_in N). exact Hx. }
+  rewrite Hm. destruct (storeu out i (map f (firstn N (skipn i inp)))); simpl; [apply IH; exact Hg | reflexivity].
+Qed.
+
+Theorem eval_unary_lane_eq (g : A -> A) inp out0 : (forall x, In x inp -> g x = f x) ->
+  eval_unary_lane N g f inp out0 = eval_unary N f inp out0.
+Proof. intros Hg. unfold eval_unary_lane, eval_unary, eval_unary_gen. now rewrite (packed1_ext g _ _ _ _ _ Hg). Qed.
 End Unary.
 
 (* ------------------------------------------------------------------ binary, same shape *)
